@@ -1,0 +1,407 @@
+//! frames: every encoder of `crate::frame` and `frame::Iter`
+//!
+//! Requests (first token `frame` already removed):
+//!   enc <frame>               -> ok <hex> | err bounds | err illformed | panic
+//!   enclast <frame>           -> same, STREAM / DATAGRAM without a length (last frame of a packet)
+//!   encclose <max_len> <frame>-> same, `Close::encode(out, max_len)`
+//!   dec <hex>                 -> ok <consumed> <frame> | err <end|id|malformed> <type|-> | err empty
+//!   iter <hex>                -> ok <n>[ ; <frame>]*[ ; err <kind> <type|->] | err empty
+//! <frame> is the textual form printed by `render` (see NOTES of the C10 frames component).
+use bytes::{BufMut, Bytes};
+
+use super::{hex, num, unhex, Comp, BAD};
+use crate::coding::{BufMutExt, Codec};
+use crate::frame::{self, Frame, FrameType};
+use crate::range_set::ArrayRangeSet;
+use crate::shared::ConnectionId;
+use crate::{Dir, StreamId, TransportErrorCode, VarInt, MAX_CID_SIZE, RESET_TOKEN_SIZE};
+
+pub(super) struct FrameC;
+impl Comp for FrameC {
+    fn exec(&mut self, w: &[&str]) -> String {
+        match w {
+            ["enc", rest @ ..] => enc(rest, true, usize::MAX),
+            ["enclast", rest @ ..] => enc(rest, false, usize::MAX),
+            ["encclose", m, rest @ ..] => {
+                let Some(m) = num(m) else { return BAD.into() };
+                enc(rest, true, m as usize)
+            }
+            ["dec", h] => {
+                let Some(b) = unhex(h) else { return BAD.into() };
+                dec(b)
+            }
+            ["iter", h] => {
+                let Some(b) = unhex(h) else { return BAD.into() };
+                iter(b)
+            }
+            _ => BAD.into(),
+        }
+    }
+}
+
+enum EncErr {
+    Bad,
+    Bounds,
+    IllFormed,
+}
+
+fn var(x: u64) -> Result<VarInt, EncErr> {
+    VarInt::from_u64(x).map_err(|_| EncErr::Bounds)
+}
+
+fn dir(s: &str) -> Result<Dir, EncErr> {
+    match s {
+        "bi" => Ok(Dir::Bi),
+        "uni" => Ok(Dir::Uni),
+        _ => Err(EncErr::Bad),
+    }
+}
+
+fn n(s: &str) -> Result<u64, EncErr> {
+    num(s).ok_or(EncErr::Bad)
+}
+
+fn h(s: &str) -> Result<Vec<u8>, EncErr> {
+    unhex(s).ok_or(EncErr::Bad)
+}
+
+/// `TransportErrorCode` has a private payload: build it with its own `Codec` from a varint
+fn code(x: u64) -> Result<TransportErrorCode, EncErr> {
+    let mut b = Vec::new();
+    var(x)?.encode(&mut b);
+    TransportErrorCode::decode(&mut &b[..]).map_err(|_| EncErr::Bad)
+}
+
+fn enc(w: &[&str], length: bool, max_len: usize) -> String {
+    let mut buf: Vec<u8> = Vec::new();
+    match enc_into(w, length, max_len, &mut buf) {
+        Ok(()) => format!("ok {}", hex(&buf)),
+        Err(EncErr::Bad) => BAD.into(),
+        Err(EncErr::Bounds) => "err bounds".into(),
+        Err(EncErr::IllFormed) => "err illformed".into(),
+    }
+}
+
+fn enc_into(w: &[&str], length: bool, max_len: usize, buf: &mut Vec<u8>) -> Result<(), EncErr> {
+    match w {
+        ["padding"] => buf.write(FrameType::PADDING),
+        ["ping"] => buf.write(FrameType::PING),
+        ["immediate_ack"] => buf.write(FrameType::IMMEDIATE_ACK),
+        ["handshake_done"] => buf.write(FrameType::HANDSHAKE_DONE),
+        ["ack", largest, delay, first, blocks, ecn] => {
+            let (largest, delay, first) = (n(largest)?, n(delay)?, n(first)?);
+            let mut pairs = Vec::new();
+            if *blocks != "-" {
+                for p in blocks.split(',') {
+                    let (g, l) = p.split_once(':').ok_or(EncErr::Bad)?;
+                    pairs.push((n(g)?, n(l)?));
+                }
+            }
+            let ecn = if *ecn == "-" {
+                None
+            } else {
+                let v: Vec<&str> = ecn.split(':').collect();
+                let [a, b, c] = v[..] else { return Err(EncErr::Bad) };
+                Some(frame::EcnCounts {
+                    ect0: n(a)?,
+                    ect1: n(b)?,
+                    ce: n(c)?,
+                })
+            };
+            // the ranges the blocks denote (what `scan_ack_blocks` accepts)
+            let mut ranges = ArrayRangeSet::new();
+            let end = largest.checked_add(1).ok_or(EncErr::IllFormed)?;
+            let mut start = largest.checked_sub(first).ok_or(EncErr::IllFormed)?;
+            ranges.insert(start..end);
+            for (g, l) in pairs {
+                let hi = start
+                    .checked_sub(g)
+                    .and_then(|x| x.checked_sub(2))
+                    .ok_or(EncErr::IllFormed)?;
+                let lo = hi.checked_sub(l).ok_or(EncErr::IllFormed)?;
+                ranges.insert(lo..hi + 1);
+                start = lo;
+            }
+            frame::Ack::encode(delay, &ranges, ecn.as_ref(), buf);
+        }
+        ["reset_stream", id, c, fo] => frame::ResetStream {
+            id: StreamId(n(id)?),
+            error_code: var(n(c)?)?,
+            final_offset: var(n(fo)?)?,
+        }
+        .encode(buf),
+        ["stop_sending", id, c] => frame::StopSending {
+            id: StreamId(n(id)?),
+            error_code: var(n(c)?)?,
+        }
+        .encode(buf),
+        ["crypto", off, d] => frame::Crypto {
+            offset: n(off)?,
+            data: Bytes::from(h(d)?),
+        }
+        .encode(buf),
+        ["new_token", t] => frame::NewToken {
+            token: Bytes::from(h(t)?),
+        }
+        .encode(buf),
+        ["stream", id, off, fin, d] => {
+            let (id, off, d) = (n(id)?, n(off)?, h(d)?);
+            let fin = match *fin {
+                "0" => false,
+                "1" => true,
+                _ => return Err(EncErr::Bad),
+            };
+            // as `StreamsState::write_stream_frames`: meta, then the payload bytes
+            let meta = frame::StreamMeta {
+                id: StreamId(id),
+                offsets: off..off.wrapping_add(d.len() as u64),
+                fin,
+            };
+            meta.encode(length, buf);
+            buf.put_slice(&d);
+        }
+        // the next kinds are written inline by `populate_packet` / `write_control_frames`
+        ["max_data", v] => {
+            let v = var(n(v)?)?;
+            buf.write(FrameType::MAX_DATA);
+            buf.write(v);
+        }
+        ["max_stream_data", id, off] => {
+            let (id, off) = (n(id)?, n(off)?);
+            buf.write(FrameType::MAX_STREAM_DATA);
+            buf.write(StreamId(id));
+            buf.write_var(off);
+        }
+        ["max_streams", d, c] => {
+            let (d, c) = (dir(d)?, n(c)?);
+            buf.write(match d {
+                Dir::Uni => FrameType::MAX_STREAMS_UNI,
+                Dir::Bi => FrameType::MAX_STREAMS_BIDI,
+            });
+            buf.write_var(c);
+        }
+        ["data_blocked", off] => {
+            let off = n(off)?;
+            buf.write(FrameType::DATA_BLOCKED);
+            buf.write_var(off);
+        }
+        ["stream_data_blocked", id, off] => {
+            let (id, off) = (n(id)?, n(off)?);
+            buf.write(FrameType::STREAM_DATA_BLOCKED);
+            buf.write(StreamId(id));
+            buf.write_var(off);
+        }
+        ["streams_blocked", d, c] => {
+            let (d, c) = (dir(d)?, n(c)?);
+            buf.write(match d {
+                Dir::Uni => FrameType::STREAMS_BLOCKED_UNI,
+                Dir::Bi => FrameType::STREAMS_BLOCKED_BIDI,
+            });
+            buf.write_var(c);
+        }
+        ["new_cid", seq, retire, cid, tok] => {
+            let (seq, retire, cid, tok) = (n(seq)?, n(retire)?, h(cid)?, h(tok)?);
+            if cid.len() > MAX_CID_SIZE || tok.len() != RESET_TOKEN_SIZE {
+                return Err(EncErr::Bad);
+            }
+            let mut t = [0u8; RESET_TOKEN_SIZE];
+            t.copy_from_slice(&tok);
+            frame::NewConnectionId {
+                sequence: seq,
+                retire_prior_to: retire,
+                id: ConnectionId::new(&cid),
+                reset_token: t.into(),
+            }
+            .encode(buf)
+        }
+        ["retire_cid", seq] => {
+            let seq = n(seq)?;
+            buf.write(FrameType::RETIRE_CONNECTION_ID);
+            buf.write_var(seq);
+        }
+        ["path_challenge", t] => {
+            let t = n(t)?;
+            buf.write(FrameType::PATH_CHALLENGE);
+            buf.write(t);
+        }
+        ["path_response", t] => {
+            let t = n(t)?;
+            buf.write(FrameType::PATH_RESPONSE);
+            buf.write(t);
+        }
+        ["close_conn", c, ty, reason] => {
+            let frame_type = if *ty == "-" {
+                None
+            } else {
+                Some(FrameType::verif_from_raw(n(ty)?))
+            };
+            frame::Close::Connection(frame::ConnectionClose {
+                error_code: code(n(c)?)?,
+                frame_type,
+                reason: Bytes::from(h(reason)?),
+            })
+            .encode(buf, max_len)
+        }
+        ["close_app", c, reason] => frame::Close::Application(frame::ApplicationClose {
+            error_code: var(n(c)?)?,
+            reason: Bytes::from(h(reason)?),
+        })
+        .encode(buf, max_len),
+        ["datagram", d] => frame::Datagram {
+            data: Bytes::from(h(d)?),
+        }
+        .encode(length, buf),
+        ["ack_frequency", s, t, d, r] => frame::AckFrequency {
+            sequence: var(n(s)?)?,
+            ack_eliciting_threshold: var(n(t)?)?,
+            request_max_ack_delay: var(n(d)?)?,
+            reordering_threshold: var(n(r)?)?,
+        }
+        .encode(buf),
+        _ => return Err(EncErr::Bad),
+    }
+    Ok(())
+}
+
+fn dir_str(d: Dir) -> &'static str {
+    match d {
+        Dir::Bi => "bi",
+        Dir::Uni => "uni",
+    }
+}
+
+fn render(f: &Frame) -> String {
+    match f {
+        Frame::Padding => "padding".into(),
+        Frame::Ping => "ping".into(),
+        Frame::ImmediateAck => "immediate_ack".into(),
+        Frame::HandshakeDone => "handshake_done".into(),
+        Frame::Ack(a) => {
+            // `additional` was validated by scan_ack_blocks: first block, then (gap, block) pairs
+            let mut r = &a.additional[..];
+            let first = VarInt::decode(&mut r).unwrap().into_inner();
+            let mut blocks = Vec::new();
+            while !r.is_empty() {
+                let g = VarInt::decode(&mut r).unwrap().into_inner();
+                let l = VarInt::decode(&mut r).unwrap().into_inner();
+                blocks.push(format!("{g}:{l}"));
+            }
+            let blocks = if blocks.is_empty() {
+                "-".to_string()
+            } else {
+                blocks.join(",")
+            };
+            let ecn = match a.ecn {
+                None => "-".to_string(),
+                Some(e) => format!("{}:{}:{}", e.ect0, e.ect1, e.ce),
+            };
+            format!("ack {} {} {first} {blocks} {ecn}", a.largest, a.delay)
+        }
+        Frame::ResetStream(x) => format!(
+            "reset_stream {} {} {}",
+            x.id.0,
+            x.error_code.into_inner(),
+            x.final_offset.into_inner()
+        ),
+        Frame::StopSending(x) => {
+            format!("stop_sending {} {}", x.id.0, x.error_code.into_inner())
+        }
+        Frame::Crypto(x) => format!("crypto {} {}", x.offset, hex(&x.data)),
+        Frame::NewToken(x) => format!("new_token {}", hex(&x.token)),
+        Frame::Stream(x) => format!(
+            "stream {} {} {} {}",
+            x.id.0,
+            x.offset,
+            x.fin as u8,
+            hex(&x.data)
+        ),
+        Frame::MaxData(v) => format!("max_data {}", v.into_inner()),
+        Frame::MaxStreamData { id, offset } => format!("max_stream_data {} {offset}", id.0),
+        Frame::MaxStreams { dir, count } => format!("max_streams {} {count}", dir_str(*dir)),
+        Frame::DataBlocked { offset } => format!("data_blocked {offset}"),
+        Frame::StreamDataBlocked { id, offset } => {
+            format!("stream_data_blocked {} {offset}", id.0)
+        }
+        Frame::StreamsBlocked { dir, limit } => {
+            format!("streams_blocked {} {limit}", dir_str(*dir))
+        }
+        Frame::NewConnectionId(x) => format!(
+            "new_cid {} {} {} {}",
+            x.sequence,
+            x.retire_prior_to,
+            hex(&x.id),
+            hex(&x.reset_token)
+        ),
+        Frame::RetireConnectionId { sequence } => format!("retire_cid {sequence}"),
+        Frame::PathChallenge(t) => format!("path_challenge {t}"),
+        Frame::PathResponse(t) => format!("path_response {t}"),
+        Frame::Close(frame::Close::Connection(x)) => format!(
+            "close_conn {} {} {}",
+            u64::from(x.error_code),
+            match x.frame_type {
+                None => "-".to_string(),
+                Some(t) => t.verif_raw().to_string(),
+            },
+            hex(&x.reason)
+        ),
+        Frame::Close(frame::Close::Application(x)) => {
+            format!("close_app {} {}", x.error_code.into_inner(), hex(&x.reason))
+        }
+        Frame::Datagram(x) => format!("datagram {}", hex(&x.data)),
+        Frame::AckFrequency(x) => format!(
+            "ack_frequency {} {} {} {}",
+            x.sequence.into_inner(),
+            x.ack_eliciting_threshold.into_inner(),
+            x.request_max_ack_delay.into_inner(),
+            x.reordering_threshold.into_inner()
+        ),
+    }
+}
+
+fn render_err(e: &frame::InvalidFrame) -> String {
+    let kind = match e.reason {
+        "unexpected end" => "end",
+        "invalid frame ID" => "id",
+        "malformed" => "malformed",
+        _ => "other",
+    };
+    match e.ty {
+        None => format!("err {kind} -"),
+        Some(t) => format!("err {kind} {}", t.verif_raw()),
+    }
+}
+
+fn dec(b: Vec<u8>) -> String {
+    let total = b.len();
+    let Ok(mut it) = frame::Iter::new(Bytes::from(b)) else {
+        return "err empty".into();
+    };
+    match it.next() {
+        None => "none".into(),
+        Some(Ok(f)) => format!("ok {} {}", total - it.verif_remaining(), render(&f)),
+        Some(Err(e)) => render_err(&e),
+    }
+}
+
+fn iter(b: Vec<u8>) -> String {
+    let Ok(it) = frame::Iter::new(Bytes::from(b)) else {
+        return "err empty".into();
+    };
+    let mut out = Vec::new();
+    let mut count = 0;
+    for r in it {
+        match r {
+            Ok(f) => {
+                count += 1;
+                out.push(render(&f));
+            }
+            Err(e) => out.push(render_err(&e)),
+        }
+    }
+    let mut s = format!("ok {count}");
+    for o in out {
+        s.push_str(" ; ");
+        s.push_str(&o);
+    }
+    s
+}
